@@ -1,1 +1,306 @@
-// logging stores: see later
+//! Logging, fault-injecting stores for crash and fault enumeration (CRASHX, DESIGN §2.1).
+//!
+//! `VWalStore` implements the repo's public `WalStore` trait: every I/O call is appended to a log
+//! together with the resulting (length, synced length) of the file, a fault plan maps call indices
+//! to answers, and the crash image after any log prefix (each file cut to its last successful
+//! sync) can be reconstructed.
+use redis_sim::streaming::{WalError, WalFileReader, WalFileWriter, WalStore};
+use std::collections::BTreeMap;
+use std::sync::atomic::{AtomicU64, Ordering};
+use std::sync::{Arc, Mutex};
+
+#[derive(Clone, Copy, Debug, PartialEq, Eq)]
+pub enum WalFault {
+    /// the call fails with an I/O error and has no effect
+    Fail,
+    /// append only: the first half of the bytes reach the file, then an error is returned
+    Partial,
+    /// append/create only: DiskFull, no effect
+    DiskFull,
+}
+
+impl WalFault {
+    pub fn name(&self) -> &'static str {
+        match self {
+            WalFault::Fail => "fail",
+            WalFault::Partial => "partial",
+            WalFault::DiskFull => "diskfull",
+        }
+    }
+}
+
+#[derive(Clone, Debug)]
+pub struct WalOp {
+    pub kind: &'static str, // create | append | sync | delete
+    pub file: String,
+    pub ok: bool,
+    pub fault: Option<WalFault>,
+    /// bytes appended by this op (append only)
+    pub bytes: Vec<u8>,
+    /// state of `file` after the op
+    pub len_after: usize,
+    pub synced_after: usize,
+}
+
+#[derive(Default, Debug, Clone)]
+struct VFile {
+    data: Vec<u8>,
+    synced: usize,
+}
+
+#[derive(Default)]
+struct Inner {
+    files: BTreeMap<String, VFile>,
+    log: Vec<WalOp>,
+    /// call index -> fault
+    plan: BTreeMap<usize, WalFault>,
+    calls: usize,
+}
+
+#[derive(Clone)]
+pub struct VWalStore {
+    inner: Arc<Mutex<Inner>>,
+    /// number of I/O calls logged so far (readable from wakers: timestamps acknowledgements)
+    pub log_len: Arc<AtomicU64>,
+}
+
+impl Default for VWalStore {
+    fn default() -> Self {
+        Self::new()
+    }
+}
+
+impl VWalStore {
+    pub fn new() -> Self {
+        VWalStore {
+            inner: Arc::new(Mutex::new(Inner::default())),
+            log_len: Arc::new(AtomicU64::new(0)),
+        }
+    }
+
+    pub fn with_plan(plan: &[(usize, WalFault)]) -> Self {
+        let s = Self::new();
+        s.inner.lock().unwrap().plan = plan.iter().cloned().collect();
+        s
+    }
+
+    /// A store holding exactly these (fully synced) files: a post-crash image.
+    pub fn from_image(files: &BTreeMap<String, Vec<u8>>) -> Self {
+        let s = Self::new();
+        {
+            let mut i = s.inner.lock().unwrap();
+            for (k, v) in files {
+                i.files.insert(
+                    k.clone(),
+                    VFile {
+                        data: v.clone(),
+                        synced: v.len(),
+                    },
+                );
+            }
+        }
+        s
+    }
+
+    pub fn log(&self) -> Vec<WalOp> {
+        self.inner.lock().unwrap().log.clone()
+    }
+
+    pub fn calls(&self) -> usize {
+        self.inner.lock().unwrap().calls
+    }
+
+    /// Files as they are right now (unsynced bytes included).
+    pub fn files_now(&self) -> BTreeMap<String, Vec<u8>> {
+        self.inner.lock().unwrap().files.iter().map(|(k, v)| (k.clone(), v.data.clone())).collect()
+    }
+
+    /// Crash image after the first `prefix` logged I/O calls: every file cut to the bytes covered by
+    /// its last successful sync within the prefix; deleted files are gone.
+    pub fn crash_image(log: &[WalOp], prefix: usize) -> BTreeMap<String, Vec<u8>> {
+        let mut data: BTreeMap<String, Vec<u8>> = BTreeMap::new();
+        let mut synced: BTreeMap<String, usize> = BTreeMap::new();
+        for op in &log[..prefix.min(log.len())] {
+            match op.kind {
+                "create" if op.ok => {
+                    data.insert(op.file.clone(), Vec::new());
+                    synced.insert(op.file.clone(), 0);
+                }
+                "append" => {
+                    if let Some(d) = data.get_mut(&op.file) {
+                        d.extend_from_slice(&op.bytes);
+                    }
+                }
+                "sync" if op.ok => {
+                    let l = data.get(&op.file).map(|d| d.len()).unwrap_or(0);
+                    synced.insert(op.file.clone(), l);
+                }
+                "delete" if op.ok => {
+                    data.remove(&op.file);
+                    synced.remove(&op.file);
+                }
+                _ => {}
+            }
+        }
+        data.into_iter()
+            .map(|(k, v)| {
+                let s = synced.get(&k).copied().unwrap_or(0);
+                (k, v[..s.min(v.len())].to_vec())
+            })
+            .collect()
+    }
+
+    fn record(&self, i: &mut Inner, op: WalOp) {
+        i.log.push(op);
+        self.log_len.store(i.log.len() as u64, Ordering::SeqCst);
+    }
+
+    fn next_fault(i: &mut Inner) -> Option<WalFault> {
+        let idx = i.calls;
+        i.calls += 1;
+        i.plan.get(&idx).copied()
+    }
+}
+
+pub struct VWriter {
+    store: VWalStore,
+    name: String,
+}
+
+fn io_err(msg: &str) -> WalError {
+    WalError::Io(std::io::Error::new(std::io::ErrorKind::Other, msg.to_string()))
+}
+
+impl WalFileWriter for VWriter {
+    fn append(&mut self, data: &[u8]) -> Result<u64, WalError> {
+        let mut i = self.store.inner.lock().unwrap();
+        let fault = VWalStore::next_fault(&mut i);
+        let (written, result): (&[u8], Result<(), WalError>) = match fault {
+            None => (data, Ok(())),
+            Some(WalFault::Fail) => (&data[..0], Err(io_err("injected append failure"))),
+            Some(WalFault::DiskFull) => (&data[..0], Err(WalError::DiskFull)),
+            Some(WalFault::Partial) => {
+                let n = data.len() / 2;
+                (&data[..n], Err(WalError::PartialWrite { expected: data.len(), actual: n }))
+            }
+        };
+        let f = i.files.entry(self.name.clone()).or_default();
+        f.data.extend_from_slice(written);
+        let (len_after, synced_after) = (f.data.len(), f.synced);
+        let op = WalOp {
+            kind: "append",
+            file: self.name.clone(),
+            ok: result.is_ok(),
+            fault,
+            bytes: written.to_vec(),
+            len_after,
+            synced_after,
+        };
+        self.store.record(&mut i, op);
+        result.map(|_| len_after as u64)
+    }
+
+    fn sync(&mut self) -> Result<(), WalError> {
+        let mut i = self.store.inner.lock().unwrap();
+        let fault = VWalStore::next_fault(&mut i);
+        let ok = fault.is_none();
+        let f = i.files.entry(self.name.clone()).or_default();
+        if ok {
+            f.synced = f.data.len();
+        }
+        let (len_after, synced_after) = (f.data.len(), f.synced);
+        let op = WalOp {
+            kind: "sync",
+            file: self.name.clone(),
+            ok,
+            fault,
+            bytes: Vec::new(),
+            len_after,
+            synced_after,
+        };
+        self.store.record(&mut i, op);
+        if ok {
+            Ok(())
+        } else {
+            Err(WalError::FsyncFailed("injected fsync failure".into()))
+        }
+    }
+
+    fn size(&self) -> u64 {
+        self.store.inner.lock().unwrap().files.get(&self.name).map(|f| f.data.len() as u64).unwrap_or(0)
+    }
+}
+
+pub struct VReader(Vec<u8>);
+
+impl WalFileReader for VReader {
+    fn read_all(&mut self) -> Result<Vec<u8>, WalError> {
+        Ok(self.0.clone())
+    }
+}
+
+impl WalStore for VWalStore {
+    type Writer = VWriter;
+    type Reader = VReader;
+
+    fn create(&self, name: &str) -> Result<VWriter, WalError> {
+        let mut i = self.inner.lock().unwrap();
+        let fault = VWalStore::next_fault(&mut i);
+        let ok = fault.is_none();
+        if ok {
+            i.files.insert(name.to_string(), VFile::default());
+        }
+        let op = WalOp {
+            kind: "create",
+            file: name.to_string(),
+            ok,
+            fault,
+            bytes: Vec::new(),
+            len_after: 0,
+            synced_after: 0,
+        };
+        self.record(&mut i, op);
+        if ok {
+            Ok(VWriter {
+                store: self.clone(),
+                name: name.to_string(),
+            })
+        } else if fault == Some(WalFault::DiskFull) {
+            Err(WalError::DiskFull)
+        } else {
+            Err(io_err("injected create failure"))
+        }
+    }
+
+    fn open_read(&self, name: &str) -> Result<VReader, WalError> {
+        let i = self.inner.lock().unwrap();
+        match i.files.get(name) {
+            Some(f) => Ok(VReader(f.data.clone())),
+            None => Err(WalError::NotFound(name.to_string())),
+        }
+    }
+
+    fn list(&self) -> Result<Vec<String>, WalError> {
+        Ok(self.inner.lock().unwrap().files.keys().cloned().collect())
+    }
+
+    fn delete(&self, name: &str) -> Result<(), WalError> {
+        let mut i = self.inner.lock().unwrap();
+        let existed = i.files.remove(name).is_some();
+        let op = WalOp {
+            kind: "delete",
+            file: name.to_string(),
+            ok: existed,
+            fault: None,
+            bytes: Vec::new(),
+            len_after: 0,
+            synced_after: 0,
+        };
+        self.record(&mut i, op);
+        Ok(())
+    }
+
+    fn exists(&self, name: &str) -> Result<bool, WalError> {
+        Ok(self.inner.lock().unwrap().files.contains_key(name))
+    }
+}
